@@ -12,6 +12,8 @@ Judge(e) ==
     /\ IF Prop = "C12" /\ e.peak_kib > 16384 + (64 * e.input_len) \div 1024 THEN PrintT(<<"REJECT", e.id, l, "C12.bounded-allocation", e.kind, e.class, e.peak_kib>>) ELSE TRUE
     /\ IF Prop = "C11" /\ e.kind = "blocks" /\ e.ret = "err" /\ e.rewrite_failed
        THEN PrintT(<<"REJECT", e.id, l, "C11.accepted-bytes-rewrite-and-reread-equal", e.kind, e.class, e.msg>>) ELSE TRUE
+    /\ IF Prop = "C11" /\ e.kind = "blocks" /\ "entry_points_disagree" \in DOMAIN e /\ e.entry_points_disagree
+       THEN PrintT(<<"REJECT", e.id, l, "C11.reading-entry-points-agree", e.kind, e.class, e.msg>>) ELSE TRUE
     /\ IF Prop = "C11" /\ e.kind = "blocks" /\ e.expect_valid /\ e.ret # "ok"
        THEN PrintT(<<"REJECT", e.id, l, "C11.reader-accepts-valid-encoding", e.kind, e.class, e.msg>>) ELSE TRUE
 Init == l = 1
